@@ -16,6 +16,11 @@ values are shared, and describe them as DATA in lean/PyrollModel/Gen/C12.lean:
   DiskElementUnit / BaseRollPass / SymmetricRollPass / TwoRollPass / ThreeRollPass / Roll) as
   (function, receiver, what) triples,
 * what `Unit.solve` returns and what `init_solve` / `SymmetricRollPass.__init__` store,
+* the velocity solvers of a pass sequence (`PassSequence.solve_velocities_forward` / `_backward`, solve entry points that
+  take the caller's profile): every write with its receiver resolved through the local bindings, every use of
+  `in_profile`,
+* the two `__deepcopy__` methods (`HookHost`, `Unit._SubUnitsList`) as (path condition, statement) lists and every
+  definition of a copy / pickle protocol method in the package,
 * the FORM of `Unit.init_solve`'s treatment of an out-profile left by an earlier solve (`Heap.Reuse`): no `else:`
   branch of `if not self.out_profile:` = `.keep`; an `else:` branch that deletes the outdated public non-root-hook
   entries, sets the incoming profile's public non-root-hook entries and fills in missing root-hook entries =
@@ -541,6 +546,257 @@ def cache_bindings(repo):
 
 
 # -------------------------------------------------------------------------------------------------
+# the velocity solvers of a pass sequence (solve entry points that take the caller's profile)
+# -------------------------------------------------------------------------------------------------
+VEL_FUNCS = ["solve_velocities_forward", "solve_velocities_backward"]
+_NEW_ARRAY = "<new array>"
+_ARRAY_MAKERS = {"np.asarray", "np.array", "np.zeros_like", "np.zeros", "np.ones_like", "np.empty_like", "numpy.asarray",
+                 "numpy.zeros_like"}
+
+
+def _own_nodes(fn):
+    """the nodes of a function body without the bodies of the functions defined inside it"""
+    out = []
+    work = list(fn.body)
+    while work:
+        n = work.pop()
+        out.append(n)
+        for ch in ast.iter_child_nodes(n):
+            if isinstance(ch, (ast.FunctionDef, ast.AsyncFunctionDef, ast.Lambda, ast.ClassDef)):
+                out.append(ch)
+                continue
+            work.append(ch)
+    return out
+
+
+def _resolve(n, env):
+    """an expression as a receiver text: local names replaced by what they are bound to"""
+    p = _path(n)
+    if p is None:
+        return _src(n)
+    root, _, rest = p.partition(".")
+    if root in env:
+        return env[root] + ("." + rest if rest else "")
+    return p
+
+
+def _local_env(fn, env0):
+    """names bound in `fn` (not in nested functions): a local bound to a freshly made array -> `<new array>`; the
+    variables of a `for` loop over (a `zip` of) sequences -> `<sequence>[*]`"""
+    env = dict(env0)
+    nodes = sorted(_own_nodes(fn), key=lambda n: (getattr(n, "lineno", 0), getattr(n, "col_offset", 0)))
+    assigned = {}
+    for n in nodes:
+        if isinstance(n, ast.Assign):
+            for t in n.targets:
+                if isinstance(t, ast.Name):
+                    assigned.setdefault(t.id, []).append(n.value)
+    for _ in range(3):
+        for name, values in assigned.items():
+            def fresh(v):
+                if not isinstance(v, ast.Call):
+                    return False
+                if _src(v.func) in _ARRAY_MAKERS:
+                    return True
+                return isinstance(v.func, ast.Attribute) and v.func.attr == "copy" and not v.args \
+                    and env.get(_src(v.func.value)) == _NEW_ARRAY
+            if all(fresh(v) for v in values):        # EVERY binding of the name makes a new array
+                env[name] = _NEW_ARRAY
+    for n in nodes:
+        if isinstance(n, ast.For):
+            it = n.iter
+            if isinstance(it, ast.Call) and _src(it.func) == "zip" and isinstance(n.target, ast.Tuple) \
+                    and len(n.target.elts) == len(it.args):
+                for t, a in zip(n.target.elts, it.args):
+                    if isinstance(t, ast.Name):
+                        r = _resolve(a, env)
+                        env[t.id] = r if r == _NEW_ARRAY else r + "[*]"
+            elif isinstance(n.target, ast.Name) and not (isinstance(it, ast.Call) and _src(it.func) in ("range", "enumerate")):
+                r = _resolve(it, env)
+                env[n.target.id] = r if r == _NEW_ARRAY else r + "[*]"
+    return env
+
+
+def _writes_resolved(fn, qual, env):
+    out = []
+    for q, r, how in writes_of(fn, qual):
+        root, _, rest = r.partition(".")
+        if root in env:
+            r = env[root] + ("." + rest if rest else "")
+        out.append((q, r, how))
+    return out
+
+
+def velocity_effects(repo):
+    """`PassSequence.solve_velocities_forward` / `solve_velocities_backward`:
+      * every write (as for the solve procedure), the receiver resolved through the local bindings: a parameter of a
+        nested helper -> the argument of its call sites, a loop variable -> `<sequence>[*]`, a local array made by
+        numpy -> `<new array>`;
+      * every use of the parameter `in_profile`: `arg:<call>` (handed to a call as it is), `read:<attribute chain>`,
+        `other:<statement>`"""
+    cls = _find_class(_parse(repo, "sequence/sequence.py"), "PassSequence")
+    writes, uses = [], []
+    for name in VEL_FUNCS:
+        fn = _find_func(cls, name)
+        if fn is None:
+            raise Gap(f"PassSequence.{name} not found")
+        qual = f"PassSequence.{name}"
+        env = _local_env(fn, {})
+        own = _own_nodes(fn)
+        nested = [n for n in own if isinstance(n, ast.FunctionDef)]
+        # writes of the function's own statements
+        shell = copy.deepcopy(fn)
+
+        class _Strip(ast.NodeTransformer):
+            def visit_FunctionDef(self, node):
+                if node is shell:
+                    self.generic_visit(node)
+                    return node
+                return None
+        _Strip().visit(shell)
+        ast.fix_missing_locations(shell)
+        writes.extend(_writes_resolved(shell, qual, env))
+        # writes of the helpers defined inside, their parameters resolved through the call sites
+        for h in nested:
+            params = [a.arg for a in h.args.args]
+            bound = {p: set() for p in params}
+            for n in own:
+                if isinstance(n, ast.Call) and isinstance(n.func, ast.Name) and n.func.id == h.name:
+                    for p_, a in zip(params, n.args):
+                        bound[p_].add(_resolve(a, env))
+                    for k in n.keywords:
+                        if k.arg in bound:
+                            bound[k.arg].add(_resolve(k.value, env))
+            henv = dict(env)
+            for p_ in params:
+                if len(bound[p_]) == 1:
+                    henv[p_] = next(iter(bound[p_]))
+                elif bound[p_]:
+                    henv[p_] = "|".join(sorted(bound[p_]))
+                else:
+                    henv.pop(p_, None)
+            henv = _local_env(h, henv)
+            writes.extend(_writes_resolved(h, f"{qual}.{h.name}", henv))
+        # uses of the caller's profile
+        parent = {}
+        for n in ast.walk(fn):
+            for ch in ast.iter_child_nodes(n):
+                parent[ch] = n
+        occ = [n for n in ast.walk(fn) if isinstance(n, ast.Name) and n.id == "in_profile"]
+        occ.sort(key=lambda n: (n.lineno, n.col_offset))
+        for n in occ:
+            par = parent.get(n)
+            if isinstance(par, ast.Call) and (n in par.args or any(k.value is n for k in par.keywords)):
+                uses.append((qual, "arg:" + _src(par)))
+            elif isinstance(par, ast.Attribute) and isinstance(n.ctx, ast.Load):
+                top = par
+                while isinstance(parent.get(top), ast.Attribute) and parent[top].value is top:
+                    top = parent[top]
+                kind = "read:" if isinstance(top.ctx, ast.Load) else "write:"
+                if isinstance(parent.get(top), ast.Call) and parent[top].func is top:
+                    kind = "call:"
+                uses.append((qual, kind + _src(top)))
+            else:
+                st = par
+                while st is not None and not isinstance(st, ast.stmt):
+                    st = parent.get(st)
+                uses.append((qual, "other:" + (_src(st) if st is not None else _src(n)).split("\n")[0][:80]))
+    rp = _find_func(cls, "roll_passes")
+    rets = [n for n in ast.walk(rp) if isinstance(n, ast.Return)] if rp is not None else []
+    targets = _src(rets[0].value) if len(rets) == 1 and rets[0].value is not None else "other"
+    return writes, uses, targets
+
+
+def profile_entry_points(repo):
+    """every function / method in pyroll/core that has a parameter named `in_profile` (what a caller's profile can be
+    handed to): `file:Class.method`"""
+    base = os.path.join(repo, "pyroll", "core")
+    res = []
+    for root, dirs, files in os.walk(base):
+        dirs.sort()
+        for fn in sorted(files):
+            if not fn.endswith(".py"):
+                continue
+            path = os.path.join(root, fn)
+            with open(path) as f:
+                tree = ast.parse(f.read(), filename=path)
+
+            def visit(node, qual):
+                for ch in ast.iter_child_nodes(node):
+                    if isinstance(ch, ast.ClassDef):
+                        visit(ch, (qual + "." if qual else "") + ch.name)
+                    elif isinstance(ch, (ast.FunctionDef, ast.AsyncFunctionDef)):
+                        a = ch.args
+                        names = [x.arg for x in a.posonlyargs + a.args + a.kwonlyargs]
+                        if "in_profile" in names:
+                            res.append(f"{os.path.relpath(path, base)}:{(qual + '.' if qual else '')}{ch.name}")
+                        visit(ch, (qual + "." if qual else "") + ch.name)
+                    else:
+                        visit(ch, qual)
+            visit(tree, "")
+    return res
+
+
+# -------------------------------------------------------------------------------------------------
+# the deep copy protocol
+# -------------------------------------------------------------------------------------------------
+def _guarded(stmts, conds, out):
+    for st in stmts:
+        if isinstance(st, ast.Expr) and isinstance(st.value, ast.Constant) and isinstance(st.value.value, str):
+            continue
+        if isinstance(st, ast.If):
+            _guarded(st.body, conds + [_src(st.test)], out)
+            _guarded(st.orelse, conds + [f"not ({_src(st.test)})"], out)
+        elif isinstance(st, ast.For):
+            _guarded(st.body, conds + [f"for {_src(st.target)} in {_src(st.iter)}"], out)
+            if st.orelse:
+                out.append((" & ".join(conds), "for-else: " + "; ".join(_src(x) for x in st.orelse)))
+        elif isinstance(st, (ast.While, ast.Try, ast.With, ast.Match)):
+            out.append((" & ".join(conds), "<" + type(st).__name__ + "> " + _src(st).split("\n")[0][:80]))
+        else:
+            out.append((" & ".join(conds), _src(st)))
+
+
+def deepcopy_forms(repo):
+    """the two `__deepcopy__` methods of the package as flat lists of (path condition, statement), and every place in
+    pyroll/core that defines a method of the copy / pickle protocol"""
+    host = _find_func(_find_class(_parse(repo, "hooks.py"), "HookHost"), "__deepcopy__")
+    lst = _find_func(_find_class(_parse(repo, "unit/unit.py"), "Unit._SubUnitsList"), "__deepcopy__")
+    if host is None or lst is None:
+        raise Gap("HookHost.__deepcopy__ / Unit._SubUnitsList.__deepcopy__ not found")
+    a, b = [], []
+    _guarded(host.body, [], a)
+    _guarded(lst.body, [], b)
+    base = os.path.join(repo, "pyroll", "core")
+    defs = []
+    proto = {"__deepcopy__", "__reduce__", "__reduce_ex__", "__getstate__", "__setstate__", "__getnewargs__",
+             "__getnewargs_ex__", "__copy__"}
+    for root, dirs, files in os.walk(base):
+        dirs.sort()
+        for fn in sorted(files):
+            if not fn.endswith(".py"):
+                continue
+            path = os.path.join(root, fn)
+            with open(path) as f:
+                tree = ast.parse(f.read(), filename=path)
+
+            def visit(node, qual):
+                for ch in ast.iter_child_nodes(node):
+                    if isinstance(ch, ast.ClassDef):
+                        visit(ch, (qual + "." if qual else "") + ch.name)
+                    elif isinstance(ch, (ast.FunctionDef, ast.AsyncFunctionDef)):
+                        if ch.name in proto:
+                            defs.append(f"{os.path.relpath(path, base)}:{qual}.{ch.name}")
+                        visit(ch, (qual + "." if qual else "") + ch.name)
+                    elif isinstance(ch, ast.Assign) and any(isinstance(t, ast.Name) and t.id in proto for t in ch.targets):
+                        defs.append(f"{os.path.relpath(path, base)}:{qual}.{_src(ch)[:60]}")
+                    else:
+                        visit(ch, qual)
+            visit(tree, "")
+    return a, b, defs
+
+
+# -------------------------------------------------------------------------------------------------
 def _s(x):
     return '"' + x.replace("\\", "\\\\").replace('"', '\\"') + '"'
 
@@ -558,6 +814,9 @@ def generate(repo):
     st = stores(repo)
     cb = cache_bindings(repo)
     reuse = reuse_form(repo)
+    vel_writes, vel_uses, vel_targets = velocity_effects(repo)
+    dc_host, dc_list, dc_defs = deepcopy_forms(repo)
+    entry = profile_entry_points(repo)
 
     L = []
     L.append("/- GENERATED by driver/translate/c12_effects.py from pyroll/core (unit/unit.py, hooks.py, roll_pass/*.py,")
@@ -603,6 +862,34 @@ def generate(repo):
     L.append("    solve (`.keep` = no else branch; `.handOver` = outdated entries deleted, the incoming profile's public")
     L.append("    non-root-hook entries set, missing root-hook entries filled in) -/")
     L.append(f"def outReuse : Reuse := {reuse}")
+    L.append("")
+    L.append("/-- every write in `PassSequence.solve_velocities_forward` / `solve_velocities_backward` and the helpers defined")
+    L.append("    inside them: (function, receiver, kind of write); the receiver is resolved through the local bindings")
+    L.append("    (helper parameter -> argument of its call sites, loop variable -> `<sequence>[*]`, numpy-made local -> `<new array>`) -/")
+    L.append("def velocityWrites : List (String × String × String) :=\n  ["
+             + ",\n   ".join(f"({_s(a)}, {_s(b)}, {_s(c)})" for a, b, c in vel_writes) + "]")
+    L.append("")
+    L.append("/-- every use of the caller's profile (`in_profile`) in the velocity solvers: `arg:` handed to a call as it is,")
+    L.append("    `read:` / `call:` / `write:` an attribute chain, `other:` anything else -/")
+    L.append("def velocityUses : List (String × String) :=\n  ["
+             + ",\n   ".join(f"({_s(a)}, {_s(b)})" for a, b in vel_uses) + "]")
+    L.append("")
+    L.append("/-- what `PassSequence.roll_passes` returns (the units whose `velocity` the velocity solvers set) -/")
+    L.append(f"def rollPassesProperty : String := {_s(vel_targets)}")
+    L.append("")
+    L.append("/-- every function of pyroll/core with a parameter `in_profile`: where a caller's profile can be handed in -/")
+    L.append("def profileEntryPoints : List String :=\n  [" + ",\n   ".join(_s(d) for d in entry) + "]")
+    L.append("")
+    L.append("/-- `HookHost.__deepcopy__` as (path condition, statement) -/")
+    L.append("def hostDeepcopy : List (String × String) :=\n  ["
+             + ",\n   ".join(f"({_s(a)}, {_s(b)})" for a, b in dc_host) + "]")
+    L.append("")
+    L.append("/-- `Unit._SubUnitsList.__deepcopy__` as (path condition, statement) -/")
+    L.append("def listDeepcopy : List (String × String) :=\n  ["
+             + ",\n   ".join(f"({_s(a)}, {_s(b)})" for a, b in dc_list) + "]")
+    L.append("")
+    L.append("/-- every definition of a method of the copy / pickle protocol in pyroll/core -/")
+    L.append("def copyProtocolDefs : List String :=\n  [" + ",\n   ".join(_s(d) for d in dc_defs) + "]")
     L.append("")
     L.append("end Gen.C12")
     return "\n".join(L) + "\n"
